@@ -303,3 +303,56 @@ func ParseNode(s string) (n *tree.Node, err error) {
 	n = r.node()
 	return
 }
+
+// LinkEmbedded gives the nodes embedded in a node-array entry the parent the parser gives them
+// (extrapolateStatementWithPairedComponents: tpNode[0].Parent = v2.Parent, i.e. the combination node above the
+// leaf that holds the array), throughout the tree below n, nested statements included.
+func LinkEmbedded(n *tree.Node) {
+	if n == nil {
+		return
+	}
+	LinkEmbedded(n.Left)
+	LinkEmbedded(n.Right)
+	switch e := n.Entry.(type) {
+	case []*tree.Node:
+		for _, v := range e {
+			if v != nil {
+				v.Parent = n.Parent
+				LinkEmbeddedBelow(v)
+			}
+		}
+	case *tree.Statement:
+		for _, p := range FieldPtrs(e) {
+			LinkEmbedded(*p)
+		}
+	}
+	for _, p := range n.PrivateNodeLinks {
+		LinkEmbedded(p)
+	}
+}
+
+// LinkEmbeddedBelow descends into an embedded node without touching its own parent.
+func LinkEmbeddedBelow(v *tree.Node) {
+	LinkEmbedded(v.Left)
+	LinkEmbedded(v.Right)
+	if st, ok := v.Entry.(*tree.Statement); ok {
+		for _, p := range FieldPtrs(st) {
+			LinkEmbedded(*p)
+		}
+	}
+}
+
+// NodeAt follows a path of '0' (left) / '1' (right) from n.
+func NodeAt(n *tree.Node, path string) *tree.Node {
+	for _, c := range path {
+		if n == nil {
+			return nil
+		}
+		if c == '0' {
+			n = n.Left
+		} else {
+			n = n.Right
+		}
+	}
+	return n
+}
